@@ -313,7 +313,7 @@ func genReadFrom(s *genState) {
 	} else if withWH {
 		s.add("S 200")
 	}
-	kind := g.Pick("l", "l", "l", "p", "f")
+	kind := g.Pick("l", "l", "l", "p", "f", "m", "m")
 	s.add(fmt.Sprintf("RF %s %d %d %d", kind, n, g.Intn(256), g.PickInt(0, 0, 7, 4096)))
 }
 
